@@ -115,7 +115,7 @@ def replay(c):
 
 
 def run(tier):
-    nmax = 8 if tier == "quick" else 10
+    nmax = 8 if tier == "quick" else 11
     shapes = tree.shapes_upto(nmax)
     t = core.Tally()
     jobs = [(MOD, "job", {"shapes": c}) for c in core.chunks(shapes[::-1], core.NPROC * 6)]
